@@ -3,6 +3,7 @@ import StorageModel.C04.Model
 import StorageModel.C04.Marks
 import StorageModel.C04.Spec
 import StorageModel.C04.Render
+import StorageModel.C04.Tier
 /- model driver for C04: `run spec` reads case lines on stdin and prints one output line per case
    (spec = false: the engine model's output; spec = true: the spec's verdict).
 
@@ -106,9 +107,63 @@ def runSpec (verbose : Bool) (σ : Schema) (txs : List (List Op)) : List String 
     let (s', r) := specRunTx σ acc.1 tx
     (s', obsToken verbose r none (coarseText (deriveσ σ s')) s'.as.length s'.bs.length :: acc.2)) ({}, [])).2.reverse
 
+/-! ### kind `t` / `T`: the three-store chain (`C04/Tier.lean`, harness `c04_tier.go`) -/
+
+def parseTOp (tok : String) : Option TOp :=
+  match tok.splitOn ":" with
+  | ["n0", id] => (Bytes.ofHex id).map TOp.create0
+  | ["n1", id, r] => do pure (TOp.create1 (← Bytes.ofHex id) (← parseFV r))
+  | ["n2", id, r] => do pure (TOp.create2 (← Bytes.ofHex id) (← parseFV r))
+  | ["m1", id, r] => do pure (TOp.update1 (← Bytes.ofHex id) (← parseFV r))
+  | ["m2", id, r] => do pure (TOp.update2 (← Bytes.ofHex id) (← parseFV r))
+  | ["r0", id] => (Bytes.ofHex id).map TOp.delete0
+  | ["r1", id] => (Bytes.ofHex id).map TOp.delete1
+  | ["r2", id] => (Bytes.ofHex id).map TOp.delete2
+  | _ => none
+
+def parseTVariant (w : String) : Option TSchema := do
+  let v ← w.toNat?
+  if v > 15 then none
+  else pure { casc1 := v % 2 = 1, null1 := (v / 2) % 2 = 1, casc2 := (v / 4) % 2 = 1, null2 := (v / 8) % 2 = 1 }
+
+def tierPath (name : String) : Bytes := Bytes.ofString ("/u/" ++ name)
+
+def tierFineRows (name : String) (m : Map FV) : List String :=
+  m.keys.flatMap fun x =>
+    match m.lookup x with
+    | none => []
+    | some r =>
+      [ "B:" ++ Bytes.toHex (tierPath name) ++ ":" ++ Bytes.toHex x,
+        "K:" ++ Bytes.toHex (tierPath name ++ slash ++ x) ++ ":" ++ hexS "ref" ++ ":" ++ typedHex r ]
+
+def tierFine (s : TSt) : String :=
+  "\n".intercalate (sortS (s.t0.keys.map (fun x => "B:" ++ Bytes.toHex (tierPath "zowners") ++ ":" ++ Bytes.toHex x) ++
+    tierFineRows "zitems" s.t1 ++ tierFineRows "znotes" s.t2))
+
+def tierRows (lvl : String) (m : Map FV) : List String :=
+  (sortB m.keys).filterMap fun x => (m.lookup x).map fun r => lvl ++ ":" ++ Bytes.toWire x ++ ":" ++ fvWire r
+
+def tierCoarse (s : TSt) : String :=
+  "\n".intercalate (["S0:" ++ wireList s.t0.keys, "S1:" ++ wireList s.t1.keys] ++ tierRows "1" s.t1 ++
+    ["S2:" ++ wireList s.t2.keys] ++ tierRows "2" s.t2)
+
+def runTier (spec verbose : Bool) (σ : TSchema) (txs : List (List TOp)) : List String :=
+  (txs.foldl (fun (acc : TSt × List String) tx =>
+    let (s', r) := if spec then tSpecRunTx σ acc.1 tx else tRunTx σ acc.1 tx
+    (s', obsToken verbose r (if spec then none else some (tierFine s')) (tierCoarse s')
+      (s'.t0.length + s'.t1.length) s'.t2.length :: acc.2)) ({}, [])).2.reverse
+
+def tierStep (spec : Bool) (kind v : String) (txs : List String) : String :=
+  match (parseTVariant v).bind (fun σ => (txs.mapM (fun (t : String) => (t.splitOn ",").mapM parseTOp)).map (fun t => (σ, t))) with
+  | some (σ, txs) =>
+    let out := runTier spec (kind = "T") σ txs
+    if out.isEmpty then "empty" else " ".intercalate out
+  | none => "bad-case"
+
 def stepWith (spec : Bool) (line : String) : String :=
   match (splitSp line).filter (· ≠ "") with
   | kind :: v :: txs =>
+    if kind = "t" ∨ kind = "T" then tierStep spec kind v txs else
     if kind ≠ "h" ∧ kind ≠ "v" ∧ kind ≠ "k" ∧ kind ≠ "w" then "bad-case" else
     let verbose := kind = "v" ∨ kind = "w"
     let reuse := kind = "k" ∨ kind = "w"
